@@ -282,7 +282,10 @@ Proof. exact removal_example. Qed.
        width hypotheses on every address of the history, (b) for IPv4 the identification of the
        reported interface (owner of the source address in the OS table) with the interface the
        daemon means, which needs "an IPv4 address is never reported on two interfaces", and (c) the
-       IpAdd / IpDel conditions of chk_C18.  chk_C18 is run on every trace of model and
+       IpAdd / IpDel conditions of chk_C18, its order condition (no IpDel after the IpAdd of the same
+       address within one IP check) and its condition on the addresses of a resolved instance (learned
+       on an interface that is not dropped); for these two the model's behaviour is shown on the examples
+       C18_moved_address_withdrawn_then_added and C18_dropped_interface_addresses_of_both_families_not_reported.  chk_C18 is run on every trace of model and
        implementation by ./check C18. *)
 
 (* Non-vacuity: the checker accepts the model's trace of the example history, packets are sent and
@@ -292,6 +295,29 @@ Example C18_history_example :
   (0 <? N.of_nat (count_sent (run (initial_state t0 os_ok) h_ok))) = true /\
   (0 <? N.of_nat (count_ipev (run (initial_state t0 os_ok) h_ok))) = true.
 Proof. exact h_ok_checked. Qed.
+
+(* An address that moves to another interface between two IP checks: the check withdraws it and
+   then adds it again (IpDel before IpAdd), the service with automatic addresses keeps it and is
+   announced with it on the new interface; the checker accepts this trace and rejects the one
+   with the two events in the other order (the services would have lost an address the host has) *)
+Example C18_moved_address_withdrawn_then_added :
+  chk_C18 os_mv (model_history t0 os_mv h_moved) = true /\
+  ip_events w_v6 (List.nth 1 (run (initial_state t0 os_mv) h_moved) []) = [OIpDel w_v6; OIpAdd w_v6] /\
+  existsb (carries w_v6) (List.nth 2 (run (initial_state t0 os_mv) h_moved) []) = true /\
+  chk_C18 os_mv (swap_second (model_history t0 os_mv h_moved)) = false.
+Proof. exact h_moved_checked. Qed.
+
+(* An interface with IPv4 only hears an announcement carrying the peer's A and AAAA records: both
+   are reported with this interface.  After disable_interface(its name) a fresh browse finds the
+   instance but reports no address of either family; the checker rejects the trace in which the
+   addresses learned on the dropped interface are reported again *)
+Example C18_dropped_interface_addresses_of_both_families_not_reported :
+  let r := run (initial_state t0 os_x) h_xfam in
+  chk_C18 os_x (model_history t0 os_x h_xfam) = true /\
+  resolved_addrs (List.nth 1 r []) = [[(V6 (n_of_octets [253; 153; 0; 2; 0; 0; 0; 0; 0; 0; 0; 0; 0; 0; 6; 0]), 2); (ip4 198 18 2 60, 2)]] /\
+  founds (List.nth 3 r []) = 1%nat /\ resolved_addrs (List.nth 3 r []) = [] /\
+  chk_C18 os_x (stale_report (model_history t0 os_x h_xfam)) = false.
+Proof. exact h_xfam_checked. Qed.
 
 Print Assumptions C18_selection_last_match_wins.
 Print Assumptions C18_apply_marks_last_match.
@@ -324,3 +350,5 @@ Print Assumptions C18_goodbye_repeat_on_its_interface.
 Print Assumptions C18_check_forgets_removed_interfaces.
 Print Assumptions C18_removal_example.
 Print Assumptions C18_history_example.
+Print Assumptions C18_moved_address_withdrawn_then_added.
+Print Assumptions C18_dropped_interface_addresses_of_both_families_not_reported.
